@@ -475,6 +475,16 @@ func runE2ECase(c *run.Ctx, s *kit.Summary, ec *e2eCase, id int) {
 	}
 	s.Count("e2e:runs")
 	s.CountN("e2e:requests_seen", len(reqs))
+	if ec.Resolvers {
+		// "use these resolvers instead of the ones configured by the operating system"
+		s.Count("e2e:resolver runs judged")
+		if dns.queries() == 0 {
+			s.Violate(kit.Violation{Kind: "resolver_meaning", What: "the servers given to -resolvers received no query although hits for a host name were sent", Input: ec,
+				Expected: "the name is looked up at the listed servers", Observed: fmt.Sprintf("%d requests received, dns queries at the listed server: 0", len(reqs)),
+				Key: map[string]interface{}{"e2e": true, "combo": combo}})
+			return
+		}
+	}
 	want := multiset(ec.headers)
 	what := "-header"
 	if ec.Proxy {
@@ -605,6 +615,20 @@ func e2eMatrix() []*e2eCase {
 				args = append(args, p)
 			} else {
 				args = append([]string{p}, args...)
+			}
+			out = append(out, e2eFromArgs(args, false))
+		}
+	}
+	// -resolvers with every kind of -dns-ttl (negative = no caching, zero = for ever, positive) and the
+	// connection-reuse / protocol values: the listed servers are the ones asked in every one of them
+	for _, ttl := range []string{"-1", "-5s", "0", "50ms", "1s"} {
+		for _, p := range []string{"", "-keepalive=false", "-keepalive=true", "-http2=false", "-http2=true"} {
+			args := []string{"-header=x-e2e: 1", "-resolvers={DNS}", "-dns-ttl=" + ttl}
+			if len(out)%2 == 0 {
+				args = []string{"-dns-ttl=" + ttl, "-header=x-e2e: 1", "-resolvers={DNS}"}
+			}
+			if p != "" {
+				args = append(args, p)
 			}
 			out = append(out, e2eFromArgs(args, false))
 		}
